@@ -28,6 +28,10 @@ def run_check(pid, tier):
         ctx.assume(a)
     mod.run(ctx)
     findings = core.load_findings()
+    dump = os.environ.get("VERIF_DUMP_VIOLATIONS")
+    if dump:
+        with open(dump, "w") as fh:
+            json.dump(ctx.violations, fh, indent=1)
     viols = sorted(ctx.violations, key=_size)
     unmatched, known = [], {}
     for v in viols:
@@ -38,6 +42,24 @@ def run_check(pid, tier):
             known.setdefault(json.dumps(f, sort_keys=True), (f, 0))
             f0, c = known[json.dumps(f, sort_keys=True)]
             known[json.dumps(f, sort_keys=True)] = (f0, c + 1)
+    # listed findings that this tier's bounds did not reach are replayed individually
+    if hasattr(mod, "replay_finding"):
+        for f in findings.get("findings", []):
+            if f.get("property") != pid or json.dumps(f, sort_keys=True) in known:
+                continue
+            pp = core.Partial()
+            try:
+                mod.replay_finding(f, pp)
+            except Exception as e:  # pragma: no cover
+                sys.stderr.write(f"[verif] could not replay listed finding {f.get('match')}: {e}\n")
+                continue
+            hits = [v for v in pp.violations if core.match_finding(pid, v, {"findings": [f]})]
+            others = [v for v in pp.violations if not core.match_finding(pid, v, findings)]
+            if hits:
+                known[json.dumps(f, sort_keys=True)] = (f, len(hits))
+            else:
+                print(f"NOTE: listed finding does not reproduce on this tree: {f.get('what','')}")
+            unmatched.extend(others)
     # violations beyond the kept list are by construction not matched individually
     overflow = ctx.nviol - len(ctx.violations)
     for f, c in known.values():
